@@ -202,6 +202,50 @@ func behFamily(name string, n, minNonPlain, maxNonPlain int, keep func(uint64) b
 	}}
 }
 
+// partialOrders: every registration sequence over every non-empty proper subset of n roots.
+func partialOrders(n int) [][]int {
+	var out [][]int
+	for mask := 1; mask < 1<<uint(n)-1; mask++ {
+		var sub []int
+		for i := 0; i < n; i++ {
+			if mask>>uint(i)&1 == 1 {
+				sub = append(sub, i)
+			}
+		}
+		for _, p := range allOrders(len(sub)) {
+			o := make([]int, len(p))
+			for k, x := range p {
+				o[k] = sub[x]
+			}
+			out = append(out, o)
+		}
+	}
+	return out
+}
+
+// partialFamily: only some of the roots are registered up front, the others are reached
+// through DependsOn alone (or not at all: they are then not part of the design). Every DAG
+// x every partial registration sequence x every behaviour vector (the behaviour that
+// registers a root depending on ANOTHER initial root is left out: it would change which
+// roots exist while the design executes).
+func partialFamily(n int) family {
+	return family{name: fmt.Sprintf("partial-registration-n%d-dags", n), n: n, orders: partialOrders(n), configs: func(yield func(uint64, []int) bool) {
+		graphsNoSelf(n, isDAG(n))(func(e uint64) bool {
+			cont := true
+			behVectors(n, 0, n, func(beh []int) bool {
+				for _, b := range beh {
+					if b == bRegisterDepOther {
+						return true
+					}
+				}
+				cont = yield(e, beh)
+				return cont
+			})
+			return cont
+		})
+	}}
+}
+
 // dag6Family: every labelled DAG on 6 roots, generated as (topological order, subset of
 // forward edges) and kept only when the order is the lexicographically smallest
 // topological order of the graph (so each DAG appears exactly once).
@@ -285,6 +329,7 @@ func families(tier string) []family {
 		fs = append(fs, behFamily(fmt.Sprintf("behaviours-n%d", n), n, 1, n, nil))
 	}
 	fs = append(fs, behFamily("behaviours-n4-dags-1-nonplain", 4, 1, 1, isDAG(4)))
+	fs = append(fs, partialFamily(2), partialFamily(3))
 	if tier == "thorough" {
 		fs = append(fs, graphFamily("graphs-n5-cyclic-one-back-edge", 5, allOrders(5), cyclicOneBackEdge(5)))
 		fs = append(fs, selfLoopFamily(4))
@@ -310,7 +355,8 @@ func families(tier string) []family {
 func boundsText(tier string) string {
 	s := "graphs without self-dependency: n<=4 all 2^(n(n-1)) graphs x all n! registration orders, n=5 all 29281 DAGs x 120 orders; " +
 		"self-dependency graphs: n<=3 all x all orders; behaviour menu (16): n<=3 all graphs x all orders x all behaviour vectors, " +
-		"n=4 all DAGs x 24 orders x vectors with 1 non-plain root"
+		"n=4 all DAGs x 24 orders x vectors with 1 non-plain root; partial registration: n=2,3 all DAGs x every registration sequence over every non-empty proper subset " +
+		"of the roots (the rest is reached through DependsOn only, or is not part of the design) x all behaviour vectors without register-root-dep-other"
 	s += "; capability families (set entry = nil or one of the 15 non-empty subsets of {Source,Preparer,Validator,Finalizer} behaving ok / failing execution / failing validation: 32 symbols; " +
 		"1-2 roots, 1-2 expression sets per root, sets may be empty; 2 roots: the 3 acyclic dependency relations x both registration orders): "
 	if tier == "thorough" {
